@@ -204,44 +204,94 @@ Definition parse (out : str) : option (list sk) :=
   | None => None
   end.
 
-(** ** The skeleton a tree is expected to produce *)
+(** ** The picture a tree is expected to produce
 
-Definition parent_cells (a : action) (top : bool) : list str :=
-  if is_bench a then (if top then headings else six_empty) else [].
+    [pic]: what must be visible, computed from the tree alone (independent of
+    the painter): for every node its name, the cells on its own line ([None]
+    when the line has no table part), its continuation rows and its children.
+    [skeleton] is the picture with every cell trimmed — what the parser can
+    recover. *)
 
-Definition skel_run (a : action) (name : str) (r : run) : sk :=
+Inductive pic := Pic (name : str) (cells : option (list str)) (rows : list (list str)) (children : list pic).
+
+Definition parent_cells (a : action) (top : bool) : option (list str) :=
+  if is_bench a then Some (if top then headings else six_empty) else None.
+
+Definition pic_run (a : action) (name : str) (r : run) : pic :=
   if did_run r && is_bench a
-  then Sk name (map trim (time_row (cells r))) (map (map trim) (cont_rows (cells r))) []
-  else Sk name [] [] [].
+  then Pic name (Some (time_row (cells r))) (cont_rows (cells r)) []
+  else Pic name None [] [].
 
-Definition skel_bench (a : action) (tcs : list N) (outf : nat -> run) (name : str) : sk :=
+Definition pic_bench (a : action) (tcs : list N) (outf : nat -> run) (name : str) : pic :=
   if Nat.ltb 1 (length tcs)
-  then Sk name (parent_cells a false) []
-          (map (fun jt => skel_run a (thread_name (snd jt)) (outf (fst jt))) (enum_from 0 tcs))
-  else Sk name
-          (let s := skel_run a name (outf 0%nat) in match s with Sk _ c _ _ => c end)
-          (let s := skel_run a name (outf 0%nat) in match s with Sk _ _ r _ => r end) [].
+  then Pic name (parent_cells a false) []
+           (map (fun jt => pic_run a (thread_name (snd jt)) (outf (fst jt))) (enum_from 0 tcs))
+  else pic_run a name (outf 0%nat).
 
-Definition skel_entry (a : action) (name : str) (ignored : bool) (args : option (list str))
-           (threads : list N) (out : nat -> nat -> run) : sk :=
-  if ignored then Sk name (if is_bench a then from_first s_ignored else [s_ignored]) [] []
-  else if is_list a then Sk name [] [] []
+Definition pic_entry (a : action) (name : str) (ignored : bool) (args : option (list str))
+           (threads : list N) (out : nat -> nat -> run) : pic :=
+  if ignored then Pic name (Some (if is_bench a then from_first s_ignored else [s_ignored])) [] []
+  else if is_list a then Pic name None [] []
   else
     let tcs := match threads with [] => [1%N] | _ => threads end in
     match args with
-    | None => skel_bench a tcs (out 0%nat) name
+    | None => pic_bench a tcs (out 0%nat) name
     | Some names =>
-      Sk name (parent_cells a false) []
-         (map (fun ia => skel_bench a tcs (out (fst ia)) (snd ia)) (enum_from 0 names))
+      Pic name (parent_cells a false) []
+          (map (fun ia => pic_bench a tcs (out (fst ia)) (snd ia)) (enum_from 0 names))
     end.
 
-Fixpoint skel (a : action) (top : bool) (n : node) : sk :=
+Fixpoint pic_node (a : action) (top : bool) (n : node) : pic :=
   match n with
-  | Group name _ children => Sk name (parent_cells a top) [] (map (skel a false) children)
-  | Bench _ name _ ignored args threads out => skel_entry a name ignored args threads out
+  | Group name _ children => Pic name (parent_cells a top) [] (map (pic_node a false) children)
+  | Bench _ name _ ignored args threads out => pic_entry a name ignored args threads out
   end.
 
-Definition skeleton (a : action) (t : list node) : list sk := map (skel a true) t.
+Definition picture (a : action) (t : list node) : list pic := map (pic_node a true) t.
+
+Fixpoint sk_of_pic (p : pic) : sk :=
+  match p with
+  | Pic n c r k =>
+    Sk n (match c with None => [] | Some row => map trim row end) (map (map trim) r) (map sk_of_pic k)
+  end.
+
+Definition skeleton (a : action) (t : list node) : list sk := map sk_of_pic (picture a t).
+
+(** The position of every line of the picture: for a node line the flags of
+    its non-top-level ancestors ([true] = that ancestor has later siblings),
+    whether the node is the last of its siblings, its name and cells; rows
+    carry the position of the node they belong to. *)
+Inductive lspec :=
+| LTop (name : str) (cells : option (list str))
+| LNode (flags : list bool) (last : bool) (name : str) (cells : option (list str))
+| LRow (flags : list bool) (last : bool) (row : list str)
+| LBlank.
+
+Fixpoint lay_node (fl : list bool) (last : bool) (p : pic) : list lspec :=
+  match p with
+  | Pic n c rows kids =>
+    LNode fl last n c :: map (LRow fl last) rows
+    ++ (fix go (l : list pic) : list lspec :=
+          match l with
+          | [] => []
+          | k :: r => lay_node (fl ++ [negb last]) (match r with [] => true | _ => false end) k ++ go r
+          end) kids
+  end.
+
+Fixpoint lay_kids (fl : list bool) (l : list pic) : list lspec :=
+  match l with
+  | [] => []
+  | k :: r => lay_node fl (match r with [] => true | _ => false end) k ++ lay_kids fl r
+  end.
+
+Definition lay_top (p : pic) : list lspec :=
+  match p with Pic n c _ kids => LTop n c :: lay_kids [] kids ++ [LBlank] end.
+
+Definition layout (ps : list pic) : list lspec := flat_map lay_top ps.
+
+(** Names in depth-first order. *)
+Fixpoint preorder (p : pic) : list str :=
+  match p with Pic n _ _ kids => n :: flat_map preorder kids end.
 
 (** ** Boolean specification on an observed output *)
 
